@@ -37,6 +37,116 @@ def gen_flags():
     return res
 
 
+def all_modules():
+    import importlib
+    import pkgutil
+    import cryptoparser
+    return [importlib.import_module(m.name) for m in pkgutil.walk_packages(cryptoparser.__path__, 'cryptoparser.')]
+
+
+def all_subclasses(c):
+    r = []
+    for s in c.__subclasses__():
+        r.append(s)
+        r += all_subclasses(s)
+    seen = []
+    for x in r:
+        if x not in seen:
+            seen.append(x)
+    return seen
+
+
+def enum_factories():
+    """Concrete NByteEnumParsable factories: name -> (class, width, enum class)."""
+    from cryptoparser.common import base
+    all_modules()
+    res = {}
+    for c in all_subclasses(base.NByteEnumParsable):
+        if c.__module__ == 'cryptoparser.common.base' or c.__module__.startswith('test'):
+            continue
+        res[c.__name__] = (c, int(c.get_byte_num()), c.get_enum_class())
+    return dict(sorted(res.items()))
+
+
+def enum_vectors():
+    """Vector classes whose items are coded enum members with an optional TlsInvalidType fallback."""
+    from cryptoparser.common import base
+    from cryptoparser.tls.version import TlsProtocolVersion, TlsVersionFactory
+    from cryptoparser.tls import grease
+    all_modules()
+    res = {}
+    for c in all_subclasses(base.ArrayBase):
+        if c.__module__.startswith('test'):
+            continue
+        try:
+            p = c.get_param()
+        except (NotImplementedError, TypeError):
+            continue
+        item_class = getattr(p, 'item_class', None)
+        if isinstance(p, base.VectorParamEnumCodeNumeric):
+            factory = item_class
+        elif item_class is TlsProtocolVersion:
+            factory = TlsVersionFactory
+        else:
+            continue
+        fb = p.fallback_class
+        if fb is None:
+            g = 0
+        elif fb is grease.TlsInvalidTypeOneByte:
+            g = 1
+        elif fb is grease.TlsInvalidTypeTwoByte:
+            g = 2
+        else:
+            raise RuntimeError('unexpected fallback class %r for %s' % (fb, c.__name__))
+        res[c.__name__] = dict(cls=c, min=int(p.min_byte_num), max=int(p.max_byte_num), num=int(p.item_num_size),
+                               factory=factory.__name__, grease=g, w=int(factory.get_byte_num()),
+                               item_is_version=item_class is TlsProtocolVersion)
+    return dict(sorted(res.items()))
+
+
+def opaque_enum_factories():
+    from cryptoparser.common import base
+    all_modules()
+    res = {}
+    for c in all_subclasses(base.OpaqueEnumParsable):
+        if c.__module__.startswith('test'):
+            continue
+        p = c.get_param()
+        res[c.__name__] = dict(cls=c, enum=c.get_enum_class(), min=int(p.min_byte_num), max=int(p.max_byte_num),
+                               num=int(p.item_num_size), encoding=c.get_encoding())
+    return dict(sorted(res.items()))
+
+
+def ssh_name_enums():
+    """Item classes of the SSH name-list vectors (string-coded cryptodatahub enums)."""
+    from cryptoparser.common import base
+    all_modules()
+    res = {}
+    for c in all_subclasses(base.VectorString):
+        if c.__module__.startswith('test'):
+            continue
+        try:
+            p = c.get_param()
+        except (NotImplementedError, TypeError):
+            continue
+        ic = p.item_class
+        import enum
+        if isinstance(ic, type) and issubclass(ic, enum.Enum):
+            res[c.__name__] = dict(cls=c, enum=ic, min=int(p.min_byte_num), max=int(p.max_byte_num), num=int(p.item_num_size),
+                                   separator=p.separator, fallback=getattr(p.fallback_class, '__name__', None))
+    return dict(sorted(res.items()))
+
+
+def local_int_enums():
+    import enum
+    res = []
+    for m in all_modules():
+        for n, c in sorted(vars(m).items()):
+            if isinstance(c, type) and issubclass(c, enum.IntEnum) and c.__module__ == m.__name__:
+                res.append((c.__name__, [(k, int(v)) for k, v in c.__members__.items()]))
+    return res
+
+
 def emit_tables():
     common.use_repo()
     out = {}
@@ -54,6 +164,61 @@ def emit_tables():
     out['flag_tables'] = flags
     lines.append('')
     lines.append('(* IntEnum classes used with parse_numeric_flags / compose_numeric_flags: member values in definition order *)')
+    from cryptodatahub.tls.algorithm import TlsGreaseOneByte, TlsGreaseTwoByte
+    facs = enum_factories()
+    out['enum_tables'] = {n: {'width': w, 'members': [(k, int(v.value.code)) for k, v in e.__members__.items()],
+                              'canonical': [m.name for m in e]} for n, (c, w, e) in facs.items()}
+    lines.append('(* every NByteEnumParsable factory: (factory name, (code width, codes of list(enum_class) in order)) *)')
+    lines.append('Definition enum_tables : list (string * (Z * list Z)) := [')
+    lines.append(';\n'.join('  (%s, (%d, [%s]))' % (coq_string(n), w, '; '.join(str(int(m.value.code)) for m in e))
+                            for n, (c, w, e) in facs.items()))
+    lines.append('].')
+    lines.append('(* the same tables over __members__ (aliases visible): (factory name, [(member name, code)]) *)')
+    lines.append('Definition enum_members : list (string * list (string * Z)) := [')
+    lines.append(';\n'.join('  (%s, [%s])' % (coq_string(n), '; '.join('(%s, %d)' % (coq_string(k), int(v.value.code))
+                                                                        for k, v in e.__members__.items()))
+                            for n, (c, w, e) in facs.items()))
+    lines.append('].')
+    ints = local_int_enums()
+    out['int_enums'] = ints
+    lines.append('(* every IntEnum declared in cryptoparser, over __members__ (aliases visible) *)')
+    lines.append('Definition int_enum_members : list (string * list (string * Z)) := [')
+    lines.append(';\n'.join('  (%s, [%s])' % (coq_string(n), '; '.join('(%s, %d)' % (coq_string(k), v) for k, v in ms))
+                            for n, ms in ints))
+    lines.append('].')
+    lines.append('Definition grease_one_byte : list Z := [%s].' % '; '.join(str(int(m.value.code)) for m in TlsGreaseOneByte))
+    lines.append('Definition grease_two_byte : list Z := [%s].' % '; '.join(str(int(m.value.code)) for m in TlsGreaseTwoByte))
+    vecs = enum_vectors()
+    out['enum_vectors'] = {n: {k: v for k, v in d.items() if k != 'cls'} for n, d in vecs.items()}
+    lines.append('(* vectors of coded enum members: (class name, ((min_byte_num, max_byte_num, item_num_size), (factory, grease fallback width or 0, item width))) *)')
+    lines.append('Definition enum_vectors : list (string * ((Z * Z * Z) * (string * Z * Z))) := [')
+    lines.append(';\n'.join('  (%s, ((%d, %d, %d), (%s, %d, %d)))' % (coq_string(n), d['min'], d['max'], d['num'],
+                                                                       coq_string(d['factory']), d['grease'], d['w'])
+                            for n, d in vecs.items()))
+    lines.append('].')
+    ops = opaque_enum_factories()
+    out['opaque_enums'] = {n: {'min': d['min'], 'max': d['max'], 'num': d['num'], 'encoding': d['encoding'],
+                               'members': [(k, v.value.code) for k, v in d['enum'].__members__.items()]} for n, d in ops.items()}
+    lines.append('(* OpaqueEnumParsable factories: (name, ((min, max, item_num_size), hex of the encoded codes of list(enum) in order)) *)')
+    lines.append('Definition opaque_enums : list (string * ((Z * Z * Z) * list string)) := [')
+    lines.append(';\n'.join('  (%s, ((%d, %d, %d), [%s]))' % (coq_string(n), d['min'], d['max'], d['num'], '; '.join(
+        coq_string(m.value.code.encode(d['encoding']).hex()) for m in d['enum'])) for n, d in ops.items()))
+    lines.append('].')
+    lines.append('Definition opaque_enum_members : list (string * list (string * string)) := [')
+    lines.append(';\n'.join('  (%s, [%s])' % (coq_string(n), '; '.join('(%s, %s)' % (coq_string(k), coq_string(v.value.code.encode(d['encoding']).hex()))
+                                                                        for k, v in d['enum'].__members__.items()))
+                            for n, d in ops.items()))
+    lines.append('].')
+    names = ssh_name_enums()
+    out['ssh_name_lists'] = {n: {'members': [(k, v.value.code) for k, v in d['enum'].__members__.items()], 'separator': d['separator'],
+                                 'fallback': d['fallback'], 'min': d['min'], 'max': d['max'], 'num': d['num']} for n, d in names.items()}
+    lines.append('(* SSH name-list vectors: (vector class, ((min, max, item_num_size), [(member name, hex of the ascii code)])) over __members__ *)')
+    lines.append('Definition ssh_name_lists : list (string * ((Z * Z * Z) * list (string * string))) := [')
+    lines.append(';\n'.join('  (%s, ((%d, %d, %d), [%s]))' % (coq_string(n), d['min'], d['max'], d['num'], '; '.join(
+        '(%s, %s)' % (coq_string(k), coq_string(v.value.code.encode('ascii').hex())) for k, v in d['enum'].__members__.items()))
+        for n, d in names.items()))
+    lines.append('].')
+    lines.append('')
     lines.append('Definition flag_tables : list (string * list Z) := [')
     lines.append(';\n'.join('  (%s, [%s])' % (coq_string(n), '; '.join(str(v) for _, v in ms)) for n, ms in flags))
     lines.append('].')
